@@ -1,4 +1,5 @@
 import TwistedProps.C56.Keys
+import TwistedProps.C56.Reent
 /-!
 C56 — flattened and JSON-serialized log events format like the original.
 
@@ -20,6 +21,11 @@ Proved here, for EVERY format string, event, and `str`/`repr`/`ascii`/`format` o
     (`{n:05d}`, n = 42: `00042` vs `42`): finding `format-spec-dropped`.
   * `custom_format_counterexample` — the oracle hypothesis cannot be dropped either
     (finding `custom-format-ignored`).
+  * re-entrant field values (added after seeded change C56-2 was missed): `flatteners_are_private`,
+    `reentrant_flat_equals_original_partial`, `reentrant_json_equals_original_partial`,
+    `hooks_flat_and_json_equal_original_partial` — the same property when evaluating a field value runs the flatten
+    machinery again (model `TwistedModel/Log/FlatReent.lean`: every `KeyFlattener()` is an allocation in an explicit
+    heap; lemmas in `TwistedProps/C56/Reent.lean`).
 Missing for full strength: fields with a format spec (the code drops the spec; see DESIGN §7.8).
 
 Proof: one induction over the parsed items that runs the original formatter, the `flattenEvent`
@@ -29,7 +35,7 @@ flattened-shape key `name!c:[/n]` (c ∈ s,r,a) present in the fields dict holds
 collide with those (`mk_inj`), and the `/n` counters of both loops agree on flattened-shape keys.
 -/
 namespace TwistedProps.C56
-open Twisted.Log.FlatFormat
+open Twisted.Log.FlatFormat Twisted.Log.FlatReent
 
 def okc (c : Char) : Prop := c = 's' ∨ c = 'r' ∨ c = 'a'
 
@@ -463,5 +469,108 @@ example : ∃ ev'', jsonRoundTrip pyOps evEx = .ok ev'' ∧ formatEvent pyOps ev
 example : (match flattenEvent pyOps evEx with
     | .ok ev' => (match lookup ev' kFlattened with | some (.dict fs) => fs.length | _ => 0)
     | .error _ => 0) = 12 := by decide +kernel
+
+/-! ### re-entrant field values (seeded change C56-2) -/
+
+/-- **No interference.**  Whatever the field values do when they are evaluated (`Good`: they may allocate and use
+any number of further `KeyFlattener`s — by formatting, flattening, serializing other events, by calling
+`extractField`, recursively — but cannot reach the ones that already exist), each entry point of the machinery
+returns what the pure function returns, independent of the heap it starts in, and leaves every flattener that
+existed before the call exactly as it was. -/
+theorem flatteners_are_private (OW : OpsW) (hg : Good OW) (ev : Dict) (field : Text) (w : World) :
+    ((flattenEventW OW ev w).1 = flattenEvent OW.pure ev ∧ Ext w (flattenEventW OW ev w).2) ∧
+    ((formatEventW OW ev w).1 = formatEvent OW.pure ev ∧ Ext w (formatEventW OW ev w).2) ∧
+    ((jsonRoundTripW OW ev w).1 = jsonRoundTrip OW.pure ev ∧ Ext w (jsonRoundTripW OW ev w).2) ∧
+    ((extractFieldW OW field ev w).1 = Twisted.Log.FlatReent.extractField OW.pure field ev ∧
+      Ext w (extractFieldW OW field ev w).2) :=
+  ⟨flattenEventW_sim OW hg ev w, formatEventW_sim OW hg ev w, jsonRoundTripW_sim OW hg ev w,
+   extractFieldW_sim OW hg field ev w⟩
+
+/-- **C56 with re-entrant values, flattening (partial: fields without a format spec).**  For every stateful value
+oracle that does not interfere, in every heap `w`: under the hypotheses of `flat_equals_original_partial` (stated
+for the oracle's texts) `flattenEvent` run with explicit flatteners succeeds, and formatting the flattened event —
+again with explicit flatteners, in the heap the first call left behind — gives the text of the original. -/
+theorem reentrant_flat_equals_original_partial (OW : OpsW) (hg : Good OW)
+    (hfmt : ∀ v, OW.pure.fmt v [] = .ok (strOf OW.pure v))
+    (ev : Dict) (s out : Text) (w : World)
+    (hs : lookup ev kFormat = some (.text s)) (hnf : lookup ev kFlattened = none)
+    (hsf : specFree (parse s).1 = true)
+    (horig : formatEvent OW.pure ev = .ok out) :
+    ∃ ev', (flattenEventW OW ev w).1 = .ok ev' ∧
+      (formatEventW OW ev' (flattenEventW OW ev w).2).1 = .ok out ∧
+      Ext w (formatEventW OW ev' (flattenEventW OW ev w).2).2 := by
+  obtain ⟨ev', h1, h2⟩ := flat_equals_original_partial OW.pure hfmt ev s out hs hnf hsf horig
+  have a := flattenEventW_sim OW hg ev w
+  have b := formatEventW_sim OW hg ev' (flattenEventW OW ev w).2
+  exact ⟨ev', by rw [a.1, h1], by rw [b.1, h2], a.2.trans b.2⟩
+
+/-- **C56 with re-entrant values, JSON (partial: fields without a format spec).** -/
+theorem reentrant_json_equals_original_partial (OW : OpsW) (hg : Good OW)
+    (hfmt : ∀ v, OW.pure.fmt v [] = .ok (strOf OW.pure v))
+    (ev : Dict) (s out : Text) (w : World)
+    (hs : lookup ev kFormat = some (.text s)) (hnf : lookup ev kFlattened = none)
+    (hsf : specFree (parse s).1 = true)
+    (horig : formatEvent OW.pure ev = .ok out) :
+    ∃ ev'', (jsonRoundTripW OW ev w).1 = .ok ev'' ∧
+      (formatEventW OW ev'' (jsonRoundTripW OW ev w).2).1 = .ok out ∧
+      Ext w (formatEventW OW ev'' (jsonRoundTripW OW ev w).2).2 := by
+  obtain ⟨ev'', h1, h2⟩ := json_equals_original_partial OW.pure hfmt ev s out hs hnf hsf horig
+  have a := jsonRoundTripW_sim OW hg ev w
+  have b := formatEventW_sim OW hg ev'' (jsonRoundTripW OW ev w).2
+  exact ⟨ev'', by rw [a.1, h1], by rw [b.1, h2], a.2.trans b.2⟩
+
+/-- the two theorems for the concrete re-entrant objects of the correspondence check: hooks (objects whose
+`__str__`/`__repr__`/`__call__`/`__getattr__` format flattened / JSON-loaded events, flatten or serialize events,
+log to a JSON observer, call `extractField`) nested `n` deep, over CPython's `str`/`repr`/`ascii`/`format` -/
+theorem hooks_flat_and_json_equal_original_partial (n : Nat) (ev : Dict) (s out : Text) (w : World)
+    (hs : lookup ev kFormat = some (.text s)) (hnf : lookup ev kFlattened = none)
+    (hsf : specFree (parse s).1 = true)
+    (horig : formatEvent (pureLevel pyOps n) ev = .ok out) :
+    (∃ ev', (flattenEventW (opsLevel pyOps n) ev w).1 = .ok ev' ∧
+      (formatEventW (opsLevel pyOps n) ev' (flattenEventW (opsLevel pyOps n) ev w).2).1 = .ok out) ∧
+    (∃ ev'', (jsonRoundTripW (opsLevel pyOps n) ev w).1 = .ok ev'' ∧
+      (formatEventW (opsLevel pyOps n) ev'' (jsonRoundTripW (opsLevel pyOps n) ev w).2).1 = .ok out) := by
+  have hg := opsLevel_good pyOps n
+  have hp := opsLevel_pure pyOps n
+  have hfmt : ∀ v, (opsLevel pyOps n).pure.fmt v [] = .ok (strOf (opsLevel pyOps n).pure v) := by
+    rw [hp]; exact pureLevel_fmt_nil pyOps pyOps_fmt_nil n
+  have horig' : formatEvent (opsLevel pyOps n).pure ev = .ok out := by rw [hp]; exact horig
+  obtain ⟨e1, a1, a2, _⟩ := reentrant_flat_equals_original_partial _ hg hfmt ev s out w hs hnf hsf horig'
+  obtain ⟨e2, b1, b2, _⟩ := reentrant_json_equals_original_partial _ hg hfmt ev s out w hs hnf hsf horig'
+  exact ⟨⟨e1, a1, a2⟩, ⟨e2, b1, b2⟩⟩
+
+/-- non-vacuity: `{host}: forwarding <{record}> received from {host}` where `str(record)` formats an event that was
+loaded from JSON (so it goes through `flatFormat` and its own `KeyFlattener`) and `repr(record)` serializes one -/
+def innerEx : Dict :=
+  [(kFormat, .text "disk {disk} at {pct}% {disk}".toList), ("disk".toList, .text "sda".toList), ("pct".toList, .int 91)]
+
+def hookEx : Val :=
+  .obj "rec:".toList "<rec>".toList
+    [(kS, .list [.list [.text "fmt".toList, .text "json".toList, .text [], .dict innerEx]]),
+     (kR, .list [.list [.text "json".toList, .text [], .text [], .dict innerEx]]),
+     (kL, .list [])] none
+
+def fmtHook : Text := "{host}: forwarding <{record}> received from {host} {record!r}".toList
+
+def evHook : Dict := [(kFormat, .text fmtHook), ("host".toList, .text "db1".toList), ("record".toList, hookEx)]
+
+def outHook : Text := "db1: forwarding <rec:disk sda at 91% sda> received from db1 <rec>".toList
+
+theorem evHook_formats : isOkText (formatEvent (pureLevel pyOps 1) evHook) (String.ofList outHook) = true := by
+  decide +kernel
+
+example : ∃ ev', (flattenEventW (opsLevel pyOps 1) evHook ⟨[[("x".toList, 7)]]⟩).1 = .ok ev' ∧
+      (formatEventW (opsLevel pyOps 1) ev' (flattenEventW (opsLevel pyOps 1) evHook ⟨[[("x".toList, 7)]]⟩).2).1
+        = .ok outHook :=
+  (hooks_flat_and_json_equal_original_partial 1 evHook fmtHook outHook ⟨[[("x".toList, 7)]]⟩
+    (by simp [evHook, lookup]) (by decide +kernel) (by decide +kernel) (ok_of_isOkText _ _ evHook_formats)).1
+
+/-- … and the nested calls really happened: flattening `evHook` in the empty heap allocates three flatteners (the
+outer one, the `flatFormat` of the inner event under `str(record)`, the `flattenEvent` of `eventAsJSON` under
+`repr(record)`), and the outer one ends with its own counters (`host` seen twice) -/
+example : ((flattenEventW (opsLevel pyOps 1) evHook ⟨[]⟩).2.cells.length,
+    count ((flattenEventW (opsLevel pyOps 1) evHook ⟨[]⟩).2.get 0) "host!s:".toList,
+    count ((flattenEventW (opsLevel pyOps 1) evHook ⟨[]⟩).2.get 1) "disk!s:".toList) = (3, 2, 2) := by
+  decide +kernel
 
 end TwistedProps.C56
